@@ -182,56 +182,59 @@ func marshalBytesCauses(a, b []byte, noHTMLEscape bool, val any) (causes []strin
 	return []string{causeUnclassified}, a1
 }
 
-// canonFFFDKeyOrder re-serializes x compactly with the members of every object that has a name
-// containing U+FFFD sorted by name (stable); nil if x is not JSON.
+// canonFFFDKeyOrder re-serializes x compactly with (1) the members of every object that has a
+// name containing U+FFFD sorted by name and (2) everywhere, members with equal names (possible
+// with pointer keys; their order is unspecified) ordered by their canonical value text.
+// nil if x is not JSON.
 func canonFFFDKeyOrder(x []byte) []byte {
 	n := ref.Parse(x, permissive)
 	if n == nil {
 		return nil
 	}
-	var out bytes.Buffer
-	var emit func(n *ref.Node)
-	emit = func(n *ref.Node) {
+	var emit func(n *ref.Node) string
+	emit = func(n *ref.Node) string {
 		switch n.Kind {
 		case ref.Array:
-			out.WriteByte('[')
+			parts := make([]string, len(n.Elems))
 			for i, e := range n.Elems {
-				if i > 0 {
-					out.WriteByte(',')
-				}
-				emit(e)
+				parts[i] = emit(e)
 			}
-			out.WriteByte(']')
+			return "[" + strings.Join(parts, ",") + "]"
 		case ref.Object:
-			ms := append([]ref.Member(nil), n.Members...)
-			for _, m := range ms {
-				if strings.Contains(m.Name, "\ufffd") {
-					// (equal names, possible with pointer keys, come in an unspecified order: by value text)
-					sort.SliceStable(ms, func(i, j int) bool {
-						if ms[i].Name != ms[j].Name {
-							return ms[i].Name < ms[j].Name
-						}
-						return string(x[ms[i].Value.Start:ms[i].Value.End]) < string(x[ms[j].Value.Start:ms[j].Value.End])
-					})
-					break
+			type mem struct{ name, raw, val string }
+			ms := make([]mem, len(n.Members))
+			byName := false
+			for i, m := range n.Members {
+				ms[i] = mem{m.Name, m.RawName, emit(m.Value)}
+				byName = byName || strings.Contains(m.Name, "\ufffd")
+			}
+			if byName {
+				sort.SliceStable(ms, func(i, j int) bool {
+					if ms[i].name != ms[j].name {
+						return ms[i].name < ms[j].name
+					}
+					return ms[i].val < ms[j].val
+				})
+			} else {
+				for i := 0; i < len(ms); {
+					j := i + 1
+					for j < len(ms) && ms[j].name == ms[i].name {
+						j++
+					}
+					run := ms[i:j]
+					sort.SliceStable(run, func(x, y int) bool { return run[x].val < run[y].val })
+					i = j
 				}
 			}
-			out.WriteByte('{')
+			parts := make([]string, len(ms))
 			for i, m := range ms {
-				if i > 0 {
-					out.WriteByte(',')
-				}
-				out.WriteString(m.RawName)
-				out.WriteByte(':')
-				emit(m.Value)
+				parts[i] = m.raw + ":" + m.val
 			}
-			out.WriteByte('}')
-		default:
-			out.Write(x[n.Start:n.End])
+			return "{" + strings.Join(parts, ",") + "}"
 		}
+		return string(x[n.Start:n.End])
 	}
-	emit(n)
-	return out.Bytes()
+	return []byte(emit(n))
 }
 
 // differOnlyInNames reports whether two JSON texts have the same tree except for object member names.
